@@ -69,7 +69,9 @@ def run_shard(shard, ctx):
             _tplbuild_list(col, ctx, np, {'kind': 'tplbuild', 'classes': cl})
     elif shard['kind'] == 'tplmatch':
         # gapped universe, plus the contiguous universe {0,1,2} where a class value is also a valid (but wrong) row index
-        for cl in (_lists(UT, 3 if tier == 'quick' else 4, 2) + _lists([0, 1, 2], 3, 2))[shard['part']::shard['parts']]:
+        import itertools as _it
+        four = [list(p_) for p_ in _it.permutations([0, 1, 2, 3])]          # incl. [0, 2, 1, 3]: first and last class in place, the middle swapped
+        for cl in (_lists(UT, 3 if tier == 'quick' else 4, 2) + _lists([0, 1, 2], 3, 2) + four)[shard['part']::shard['parts']]:
             _tplmatch_list(col, ctx, np, {'kind': 'tplmatch', 'classes': cl})
     else:
         fams = ('anova', 'nicv', 'snr', 'mia', 'tplbuild', 'tplattack')
@@ -190,7 +192,7 @@ def _tplmatch_list(col, ctx, np, case):
     cl = case['classes']
     rng = rng_for(ctx['seed'], 'c12-tplmatch')
     # building set: 3 traces for each value of the universe (so undeclared values are present among the building traces)
-    uni = UT if any(v in (5, 300) for v in cl) else [0, 1, 2, 7]
+    uni = UT if any(v in (5, 300) for v in cl) else [0, 1, 2, 3, 7]
     vb = np.repeat(np.array(uni), 3)
     Xb = (rng.randint(0, 10, (len(vb), 2)) + 3 * np.array([uni.index(v) for v in vb])[:, None]).astype('float64')
     perm = rng.permutation(len(vb)); vb = vb[perm]; Xb = Xb[perm]
